@@ -127,6 +127,23 @@ pub fn generate(sink: &mut Sink, seed: u64, thorough: bool) {
             _ => "urn:example:foreign",
         };
         prog.stmts.insert(0, Stmt::Ext("fx".into(), fx_url.into()));
+        // half of the clouds get an extension record of the foreign namespace whose local name is often a
+        // standard record name (used by the "record with a locally declared default namespace" insertion)
+        for st in prog.stmts.iter_mut() {
+            if let Stmt::Pc { proto, body, .. } = st {
+                if rng.chance(1, 2) && !proto.is_empty() {
+                    let local = *rng.pick(&["intensity", "colorRed", "rowIndex", "timeStamp", "cartesianX", "custom7", "isColorInvalid"]);
+                    proto.push(Rec { name: RName::Ext("fx".into(), local.into()), dt: DT::I(0, 255) });
+                    let mut k = 0i64;
+                    for b in body.iter_mut() {
+                        if let PcStmt::P(vs) = b {
+                            vs.push(Val::I(k % 256));
+                            k += 7;
+                        }
+                    }
+                }
+            }
+        }
         // baseline
         let dev = SimDev::new(vec![]);
         let base = execute(&prog, &dev);
@@ -136,6 +153,72 @@ pub fn generate(sink: &mut Sink, seed: u64, thorough: bool) {
         let xml = String::from_utf8(extract_xml(&base.file)).unwrap_or_default();
         let maxp = 200;
         let Ok(Ok(scene_a)) = guarded(|| read_scene(&base.file, maxp)) else { continue };
+        // a record of the foreign namespace re-declared without prefix: `<fx:name …>` becomes
+        // `<name xmlns="urn:local-default" …>` — still a foreign-namespace record, never a standard one
+        let fx_lines: Vec<&str> = xml.lines().filter(|l| l.starts_with("<fx:") && l.contains("</fx:")).collect();
+        if !fx_lines.is_empty() && rng.chance(1, 3) {
+            let l = *rng.pick(&fx_lines);
+            if xml.matches(l).count() == 1 {
+                let name_end = l.find(' ').unwrap_or(l.len());
+                let local = &l[4..name_end];
+                let rest = &l[name_end..];
+                let close = format!("</fx:{local}>");
+                let new_line = format!("<{local} xmlns=\"urn:local-default\"{}", rest.replace(&close, &format!("</{local}>")));
+                let n_stmts = prog.stmts.len();
+                prog.stmts[n_stmts - 1] = Stmt::FinX(format!("sub:{}:{}", hexs(l), hexs(&new_line)));
+                let dev2 = SimDev::new(vec![]);
+                let run = execute(&prog, &dev2);
+                made += 1;
+                sink.oracle_evals += 1;
+                sink.stat("insert_record-local-default-ns");
+                let replay = {
+                    let lv = library_version();
+                    prog.case_line(&lv)
+                };
+                if run.panicked || run.results.last().map(|s| s != "ok").unwrap_or(true) {
+                    sink.fail("C18", "foreign/write-failed", &replay, "finalize with the transformer failed");
+                    continue;
+                }
+                match guarded(|| read_scene(&run.file, maxp)) {
+                    Err(p) => sink.fail("C18", "foreign/panic-on-foreign-content", &replay, &format!("panic: {p}")),
+                    Ok(Err(e)) => sink.fail("C18", "foreign/record-ns-breaks-open", &replay, &format!("re-declaring fx:{local} with a local default namespace makes the file unreadable: {e}")),
+                    Ok(Ok(scene_b)) => {
+                        // expected: the same scene, that one record reported without prefix
+                        let mut exp = scene_a.clone();
+                        let mut hit = false;
+                        for c in exp.clouds.iter_mut() {
+                            for r in c.proto.iter_mut() {
+                                if !hit && r.name == RName::Ext("fx".into(), local.to_string()) && l.contains(&format!("<fx:{local} ")) {
+                                    // only the cloud whose prototype line was rewritten; prototypes are listed in order,
+                                    // so rewrite the first one whose line text matches
+                                    hit = true;
+                                    r.name = RName::Ext(String::new(), local.to_string());
+                                }
+                            }
+                        }
+                        let diffs = same_scene(&exp, &scene_b);
+                        // (if several clouds carry the same record, the rewritten one may not be the first: accept
+                        // exactly one renamed record anywhere)
+                        let renamed_ok = diffs.is_empty() || {
+                            let total_a: usize = scene_a.clouds.iter().map(|c| c.proto.iter().filter(|r| r.name == RName::Ext("fx".into(), local.to_string())).count()).sum();
+                            let total_b: usize = scene_b.clouds.iter().map(|c| c.proto.iter().filter(|r| r.name == RName::Ext("fx".into(), local.to_string())).count()).sum();
+                            let unp_b: usize = scene_b.clouds.iter().map(|c| c.proto.iter().filter(|r| r.name == RName::Ext(String::new(), local.to_string())).count()).sum();
+                            total_b + 1 == total_a && unp_b == 1 && diffs.iter().all(|(_, sig, _)| sig.starts_with("prototype/"))
+                        };
+                        if !renamed_ok {
+                            let (_, sig, detail) = &diffs[0];
+                            sink.fail("C18", &format!("foreign/record-local-ns-changes/{sig}"), &replay, &format!("re-declaring fx:{local} with a local default namespace changes the content: {detail}"));
+                        }
+                    }
+                }
+                let ops = eng_reader::ops_for(&mut rng, &run.file, false);
+                let line = eng_reader::case_line(&run.file, &ops);
+                let o: Vec<&str> = ops.iter().map(|s| s.as_str()).collect();
+                let out = eng_reader::run_ops(&run.file, &o);
+                sink.case(line, out, true);
+                continue;
+            }
+        }
         // choose an insertion
         let (pos, text, kind) = if rng.chance(1, 4) {
             let pts = attribute_points(&xml);
